@@ -3,16 +3,28 @@ SPEC = dict(
     prop="C27",
     proof_module="SimbodyProofs.C27",
     sources=["SimbodyModel/Proto.lean", "SimbodyModel/Spatial.lean", "SimbodyModel/C27.lean",
-             "SimbodyProofs/Spatial.lean", "SimbodyProofs/C27.lean", "Drivers/C27.lean"],
+             "SimbodyProofs/Spatial.lean", "SimbodyProofs/C27.lean", "SimbodyProofs/C27_sqrt.lean", "Drivers/C27.lean"],
+    lake_targets=["SimbodyProofs.C27_sqrt"],     # witness that SqrtSpec is satisfiable (Real.sqrt)
     n=dict(quick=4000, thorough=400000),
     rtol=1e-9, atol=1e-12,
-    rule="cases drawn from VERIF_SEED by harness/C27.cpp: every setRotationFrom* / convert*To* of Rotation_<double> and "
-         "Rotation_<float> (1/4 of the cases), all 9 axis pairs and all 27 axis triples in body- and space-fixed form, "
+    rule="cases drawn from VERIF_SEED by harness/C27.cpp: every stream runs for Rotation_<double> and for Rotation_<float> "
+         "(1/4 of the cases; same 22 streams): every setRotationFrom* / convert*To*, all 9 axis pairs and all 27 axis triples in body- and space-fixed form, "
          "angles uniform / near 0 / near pi / near +-pi/2 down to 1e-17 / exact special values; quaternions uniform, "
          "near identity, near and exactly 180 degrees, dominant component and exact ties (all four Spurrier branches); "
          "UnitVec::perp incl. axis-aligned and equal-component vectors; two-axis construction incl. zero / parallel / "
-         "nearly parallel second vector; Transform / InverseTransform algebra; distinct = distinct input records",
-    partial=None,
+         "nearly parallel second vector; Transform / InverseTransform algebra, Rotation products, re-expression, quaternion "
+         "product, closest-rotation fitting of noisy matrices; three-angle extraction also from rotations NOT built by the "
+         "same-sequence constructor (quaternion-built; near-gimbal rotations reached through a product, |cos th2| down to "
+         "1e-14); D tags count the extraction branch taken (regular / singular+ / singular-); distinct = distinct input records",
+    partial="atan2 is a parameter: the Euler / angle-axis theorems are about the executed extraction functions and state "
+            "exactly which (sin-like, cos-like) pairs atan2 is handed in every branch (regular and both gimbal-lock branches, "
+            "all 6+6 axis orders, body and space); that atan2(k sin t, k cos t) = t for k > 0 is libm (trusted).  Predicate/"
+            "correspondence only (no theorem): extraction for sequences with a repeated adjacent axis, extraction from "
+            "rotations not built by the same-sequence constructor, closest-rotation fitting of noisy input, Rotation products "
+            "(the model is the matrix product by definition), Quaternion::multiply's normalisation.  Not covered: "
+            "Quaternion::normalizeThis zero/NaN cases, setQuaternionFromAngleAxis(Vec4) eps branches, "
+            "isSameRotationToWithinAngle.  The round trip does NOT hold to working precision near gimbal lock for general "
+            "rotations (finding keys toThree[F].general.neargimbal.rt_halfprecision)",
     assumptions=[
         "angles enter the model as trig pairs (c,s) with c*c+s*s=1; the angle-sum formulas are the specification of cos/sin of a sum",
         "libm sqrt/atan2/cos/sin are trusted: sqrt enters the theorems through SqrtSpec, atan2 through theorems about the "
